@@ -84,11 +84,10 @@ let rt_line model t0 tr =
     | Some s -> Printf.sprintf "%d | %s %s" (if eq then 1 else 0) (hexs text) s
     | None -> "! oob"
   end else
-    (* in the class: the flag is 1 and the tree read back is the canonical form of the tree *)
-    (if in_class v then "1 | ? ok " ^ String.concat " " (dump (canon v))
-     (* the extension (unsigned integers, arrays): no claim about equality, the tree read back is readback v *)
-     else if in_ext v then "? | ? ok " ^ String.concat " " (dump (readback v))
-     else "?")
+    (* in the class of the property: the flag (Variant::operator== both ways round) is 1 and the tree read back is the
+       canonical form of the tree; the check compares the two dumps with the width of integers wiped out (value_eq).
+       Outside the class (unsigned integers, arrays - the extension): no claim, the model alone predicts (readback v) *)
+    (if in_class v then "1 | ? ok " ^ String.concat " " (dump (canon v)) else "?")
 
 let () =
   let mode = Sys.argv.(1) and file = Sys.argv.(2) in
@@ -104,16 +103,14 @@ let () =
              | None -> emit "! oob")
           else emit "??*"
         | ["pstr"; h] ->
-          (* a string literal: the text is  "<content>"  ; the spec judges valid JSON literals only *)
+          (* a string literal: the text is  "<content>"  *)
           let content = bytes_of_hex h in
           if model then
             (match result_text (parse (cstr ((z_of_int 34 :: content) @ [z_of_int 34]))) with
              | Some s -> emit s
              | None -> emit "! oob")
-          else
-            (match (if List.exists (fun b -> b = Z0) content then None else ref_string content) with
-             | Some v -> emit ("ok s" ^ hexs v)
-             | None -> emit "??*")
+          else emit "??*"     (* which value a literal denotes is outside the property text (RFC 8259: theorem string_token_is_rfc8259
+                                 about the model; the implementation is compared with the model only); judged: no crash, position inside *)
         | ["strip"; h] ->
           (* the String with all its bytes; the model reads it as a C string and checks every access *)
           let s = bytes_of_hex h in
